@@ -80,3 +80,46 @@ package nack
 //@     && (i > 10 ==> size != 1024) && (i > 11 ==> size != 2048) && (i > 12 ==> size != 4096) && (i > 13 ==> size != 8192)
 //@     && (i > 14 ==> size != 16384) && (i > 15 ==> size != 32768)
 //@   loop 1 decreases 16 - i
+//@
+//@ # ---- NACK responder (property C04)
+//@
+//@ pred streamInv(s *localStream) := s != nil && s.rtpBuffer != nil && bufinv(s.rtpBuffer) && refsBounded(s.rtpBuffer)
+//@
+//@ # the writer returned by BindLocalStream: records a private copy of packets of the bound SSRC, then forwards unchanged
+//@ func (*ResponderInterceptor).BindLocalStream$1
+//@   requires hdr: header != nil && info != nil
+//@   requires stream: streamInv(stream)
+//@   requires not_locked_by_caller: lockstate(stream.rtpBufferMutex) != -1
+//@   modifies *
+//@   ensures forwarded_at_most_once: calls("writer.Write") <= 1
+//@   ensures other_ssrc_passthrough: old(header.SSRC) != info.SSRC ==> calls("writer.Write") == 1 && calls("n.packetFactory.NewPacket") == 0 && calls("Add") == 0
+//@   ensures copied_once: old(header.SSRC) == info.SSRC ==> calls("n.packetFactory.NewPacket") == 1
+//@        && callarg("n.packetFactory.NewPacket", 0) == header && callarg("n.packetFactory.NewPacket", 1) == payload
+//@        && callarg("n.packetFactory.NewPacket", 2) == info.SSRCRetransmission && callarg("n.packetFactory.NewPacket", 3) == info.PayloadTypeRetransmission
+//@   ensures copy_failed: old(header.SSRC) == info.SSRC && callres("n.packetFactory.NewPacket", 1) != nil ==> calls("writer.Write") == 0 && calls("Add") == 0
+//@        && result0 == 0 && result1 == callres("n.packetFactory.NewPacket", 1)
+//@   ensures buffered_once: old(header.SSRC) == info.SSRC && callres("n.packetFactory.NewPacket", 1) == nil ==> calls("Add") == 1
+//@        && callarg("Add", 0) == stream.rtpBuffer && callarg("Add", 1) == callres("n.packetFactory.NewPacket", 0) && calls("writer.Write") == 1
+//@   ensures same_packet: calls("writer.Write") == 1 ==> callarg("writer.Write", 0) == header && callarg("writer.Write", 1) == payload && callarg("writer.Write", 2) == attributes
+//@        && result0 == callres("writer.Write", 0) && result1 == callres("writer.Write", 1)
+//@   ensures buffer_under_lock: calls("Add") == 1 ==> atcall("Add", lockstate(stream.rtpBufferMutex)) == -1
+//@   ensures unlocked_when_forwarding: calls("writer.Write") == 1 ==> atcall("writer.Write", lockstate(stream.rtpBufferMutex)) != -1
+//@
+//@ # one requested sequence number: retransmit the buffered copy exactly once, or nothing
+//@ func (*ResponderInterceptor).resendPackets$1
+//@   requires stream: streamInv(stream)
+//@   modifies *
+//@   ensures looked_up: calls("Get") == 1 && callarg("Get", 0) == stream.rtpBuffer && callarg("Get", 1) == seq
+//@   ensures under_lock: atcall("Get", lockstate(stream.rtpBufferMutex)) == -1
+//@   ensures nothing_if_absent: callres("Get", 0) == nil ==> calls("stream.rtpWriter.Write") == 0 && calls("Release") == 0
+//@   ensures exactly_one_retransmission: callres("Get", 0) != nil ==> calls("stream.rtpWriter.Write") == 1 && calls("Release") == 1
+//@        && callarg("Release", 0) == callres("Get", 0)
+//@        && callarg("stream.rtpWriter.Write", 0) == atcall("stream.rtpWriter.Write", callres("Get", 0).header)
+//@        && callarg("stream.rtpWriter.Write", 1) == atcall("stream.rtpWriter.Write", callres("Get", 0).payload)
+//@   ensures sent_outside_lock: calls("stream.rtpWriter.Write") == 1 ==> atcall("stream.rtpWriter.Write", lockstate(stream.rtpBufferMutex)) != -1
+//@   ensures continues: result == true
+//@
+//@ func (*ResponderInterceptor).resendPackets
+//@   requires nack: nack != nil
+//@   modifies *
+//@   ensures unbound_stream_produces_nothing: !has(old(n.streams), nack.MediaSSRC) ==> calls("Range") == 0
